@@ -366,6 +366,13 @@ func (m *cronMon) onTickStart(p *Proc) {
 				k.lb, k.fuzzy = k.inPassAt, true
 				k.inPassAt = time.Time{}
 			}
+			// "from the moment of the change": the statement allows the new schedule's times
+			// after the instant the change was made, even if it is processed later; this
+			// implementation re-bases from the processing instant, which completeness (cf)
+			// accounts for. Only times at or before the change itself are back-dated.
+			if v := m.version(key, k.procIdx); v != nil && v.at.Before(k.lb) {
+				k.lb, k.fuzzy = v.at, true
+			}
 			k.lastFired = time.Time{}
 			k.unstable = k.cacheIdx != k.procIdx
 			m.w.Sim.Stats["probe.cron_flush_processed"]++
